@@ -2,5 +2,5 @@ INIT Init
 NEXT Next
 INVARIANT Inv
 CONSTANTS
- Classes = {32}
+ Classes = {32, 64}
 CHECK_DEADLOCK FALSE
